@@ -371,7 +371,10 @@ KF_FLAG = {'F4': 'kf_f4', 'F7': 'kf_f7', 'F14': 'kf_f14', 'F28': 'kf_f28'}      
 
 
 def classify_all(sc, seg, ln):
-    for key, fn in (('F1', is_f1), ('F4', is_f4), ('F14', is_f14), ('F5', is_f5), ('F28', is_f28), ('F7', is_f7)):
+    # (F5 is FIXED: a fixed finding suppresses nothing, and its shape must not shadow the shapes of the known ones either: an
+    # emission that matched is_f5 was reported as a plain violation instead of known finding F7 - seed-dependent, found by the
+    # multi-seed sweep)
+    for key, fn in (('F1', is_f1), ('F4', is_f4), ('F14', is_f14), ('F28', is_f28), ('F7', is_f7)):
         try:
             if fn(sc, seg, ln):
                 return key
